@@ -84,6 +84,7 @@ func init() {
 			{"limit-guards", "every growth site of a bounded resource (NEWBUFFER/CAT allocation, SHL/SHR/POW operand, TRY nesting, NEWARRAY size, invocation stack) is gated by the comparison with its limit", ruleLimitGuards},
 			{"bigint-ctor", "conversions to *stackitem.BigInteger exist only in package stackitem, each after CheckIntegerSize or from a <=64-bit source; NewBigInteger faults on an oversized value", ruleBigintCtor},
 			{"slot-scope", "the static slot's references are released only when the last frame of its script unloads", ruleSlotScope},
+			{"clone-supersedes", "once an item was superseded by its struct clone and the reference counter told about the swap, the counter is never again given the original in that instruction (the original may be held elsewhere: releasing it twice under-counts, and the 2048-item limit is bypassed)", ruleCloneSupersedes},
 			{"jump-opcode-agreement", "the set of opcodes whose execute arm computes a jump target equals the set whose operands IsScriptCorrect records as jump targets; the boundary subset test gates its success exit; interpreter and checker share one decoder", ruleJumpAgreement},
 		},
 		NotCovered: "the reference counter's arithmetic (never under-counts), implicit run-time panics outside the recover scope",
